@@ -27,8 +27,39 @@ def incoming_slot_route_paired(ctx, rule, instance):
                       'a path frees the incoming-buffer slot but leaves its connection_ids_initial route: %s' % (fmt_path(b, p2) if p2 else ''))
     ctx.floor(rule, instance + '_sites', n, 2)
     # and the slab is only indexed through a route taken from the index
-    who_may_write(ctx, rule, instance + '_slab_writers', 'endpoint::Endpoint', 'incoming_buffers',
-                  ['Endpoint::handle', 'Endpoint::handle_first_packet', 'Endpoint::accept', 'Endpoint::clean_up_incoming', 'Endpoint::new'], kinds=('mutborrow', 'assign'))
+    allowed = ['Endpoint::handle', 'Endpoint::handle_first_packet', 'Endpoint::accept', 'Endpoint::clean_up_incoming', 'Endpoint::new']
+    adt, field, inst = 'endpoint::Endpoint', 'incoming_buffers', instance + '_slab_writers'
+
+    def frees_own_slot(w):
+        # the body of clean_up_incoming in its caller, stated on what it does instead of on its name: the write is the
+        # receiver borrow of `incoming_buffers.remove(X.incoming_idx)` with X a value of type Incoming (the token that owns
+        # the slot; the index comes from nowhere else), in a root function, i.e. at one of the freeing sites whose every
+        # path was checked above for the removal / re-pointing of the slot's initial route.
+        c = w.call
+        if w.kind != 'mutborrow' or c is None or not c.is_('Slab::remove') or len(c.args) != 2 or F.root_of(w.body).id != w.body.id:
+            return False
+        a0 = arg_desc(F, c, 0)
+        if not (a0[0] == 'field' and a0[2] == field):
+            return False
+        alts = flat(arg_desc(F, c, 1))
+        for x in alts:
+            if not (x[0] == 'field' and x[2] == 'incoming_idx' and x[1][0] in ('param', 'local') and isinstance(x[1][1], int) and x[1][1] < len(w.body.locals)):
+                return False
+            ty = (w.body.locals[x[1][1]][0] or '').replace('&mut ', '').replace('&', '').strip()
+            if not (ty == 'Incoming' or ty.endswith('::Incoming')):
+                return False
+        return bool(alts)
+    # engine.rulelib.who_may_write (same keys), plus the structurally stated form above
+    for w in [w for w in field_writes(F, adt, field, crate='quinn_proto') if w.kind in ('mutborrow', 'assign')]:
+        if w.kind == 'mutborrow' and w.call is not None and is_noise(w.call):
+            continue
+        r = F.root_of(w.body)
+        if root_matches(ctx, w.body, allowed):
+            ctx.ok(rule, inst, r, w.where(), '%s of %s.%s' % (w.kind, adt, field))
+        elif frees_own_slot(w):
+            ctx.ok(rule, inst, r, w.where(), '%s of %s.%s in %s: frees the slot named by its own Incoming (= clean_up_incoming), route pairing checked per path' % (w.kind, adt, field, r.short))
+        else:
+            ctx.bad(rule, inst + '/unexpected_writer', r, w.where(), '%s of %s.%s in %s; allowed writers: %s. ' % (w.kind, adt, field, r.short, sorted(allowed)))
 
 
 def cid_replacement_only_for_retired(ctx, rule, instance):
